@@ -2,7 +2,6 @@
    spine-go sees it by reflection (model/update.go, collection_operations.go,
    commandframe_additions.go).  Instances are generated into Gen/GenSchemas.v
    from the compiled types of /repo.  No proofs here. *)
-From Coq Require Import String.
 From Verif Require Import Base.Prelude.
 
 (* kind of one field of the element struct *)
@@ -31,7 +30,6 @@ Inductive selk :=
 | SBad.              (* same name but slice/struct valued or differently typed: panics or compares pointers *)
 
 Record schema := {
-  s_name : string;                       (* function name *)
   s_kinds : list kind;                   (* one per element field, struct order *)
   s_keys : list nat;                     (* pointer fields tagged eebus:"key", struct order *)
   s_wc : list nat;                       (* pointer fields tagged eebus:"writecheck" *)
@@ -43,7 +41,7 @@ Definition s_nf (s : schema) : nat := length (s_kinds s).
 Definition kind_of (s : schema) (i : nat) : kind := nth i (s_kinds s) KNonNil.
 
 Definition empty_schema : schema :=
-  {| s_name := ""; s_kinds := []; s_keys := []; s_wc := []; s_sel := None; s_elems := None |}.
+  {| s_kinds := []; s_keys := []; s_wc := []; s_sel := None; s_elems := None |}.
 
 Fixpoint nodupb (l : list nat) : bool :=
   match l with
